@@ -1,18 +1,22 @@
 ----------------------------- MODULE ReqClassWalk -----------------------------
-(* Enumeration vehicle for ReqClass (C05).  The request-class product has 345,600 elements; instead of letting TLC
+(* Enumeration vehicle for ReqClass (C05).  The request-class product (fresh connection) has 777,600 elements; instead of letting TLC
    build it as one set of initial states (single-threaded, and it normalises the set first), the product is walked:
-   start from the 8 ordinary requests (one per method-key class) and change one dimension per step, in a fixed
+   start from the 9 ordinary requests (one per method-key class) and change one dimension per step, in a fixed
    order and each dimension at most once -- every class has exactly one generation path, so the reachable states
-   are exactly Req and transitions = classes.  The table invariants of ReqClass are checked in every state; Emit
+   are exactly the fresh-connection product plus every class with a connection history that is within reach of the
+   emission bound, and transitions = classes.  The table invariants of ReqClass are checked in every state; Emit
    prints case + oracle for the classes with at most MaxFaults deviations (ReqClass!Emitted).                   *)
 EXTENDS ReqClass, TLC, Json
 
 VARIABLE c
 
-WalkInit == c \in {[k |-> "req", m |-> mm, rv |-> "ok", pv |-> "ok", seg |-> "none", ptr |-> "none", loc |-> "absent",
+WalkInit == c \in {[k |-> "req", hist |-> "fresh", m |-> mm, rv |-> "ok", pv |-> "ok", seg |-> "none", ptr |-> "none", loc |-> "absent",
                     cols |-> "match", rows |-> 1, extra |-> "none"] : mm \in MethS}
 
-Step(d) == c' = d
+\* the connection-history dimension multiplies the product by 6; classes with a history are walked only as far as
+\* they can still be emitted (Changed is monotone along a path and Faults(c) >= Changed(c) - 2)
+Step(d) == /\ d.hist = "fresh" \/ Changed(d) <= MaxFaults + 2
+           /\ c' = d
 
 \* one generation path per class: dimensions are changed in a fixed order, each at most once (a dimension may be
 \* changed only while it and every later dimension still have their base value) -- transitions = classes
@@ -24,8 +28,10 @@ Z4 == c.ptr = "none" /\ Z5
 Z3 == c.seg = "none" /\ Z4
 Z2 == c.pv = "ok" /\ Z3
 Z1 == c.rv = "ok" /\ Z2
+Z0 == c.hist = "fresh" /\ Z1
 
-WalkNext == \/ Z1 /\ \E v \in RvS \ {"ok"}       : Step([c EXCEPT !.rv = v])
+WalkNext == \/ Z0 /\ \E v \in HistS \ {"fresh"}  : Step([c EXCEPT !.hist = v])
+            \/ Z1 /\ \E v \in RvS \ {"ok"}       : Step([c EXCEPT !.rv = v])
             \/ Z2 /\ \E v \in PvS \ {"ok"}       : Step([c EXCEPT !.pv = v])
             \/ Z3 /\ \E v \in SegS \ {"none"}    : Step([c EXCEPT !.seg = v])
             \/ Z4 /\ \E v \in PtrS \ {"none"}    : Step([c EXCEPT !.ptr = v])
@@ -43,5 +49,6 @@ Inv_OnlyCleanSucceeds       == OnlyCleanSucceeds(c)
 Inv_SingleFaultExact        == SingleFaultExact(c)
 Inv_BlindOnlyWhenConsumed   == BlindOnlyWhenConsumed(c)
 Inv_WorldOnlyWhereItMatters == WorldOnlyWhereItMatters(c)
+Inv_OnlyOrphanedInputSwallowed == OnlyOrphanedInputSwallowed(c)
 Emit == Emitted(c) => PrintT("@@J@@" \o ToJson([case |-> c, exp |-> Expected(c), faults |-> Faults(c)]))
 =============================================================================
